@@ -71,7 +71,8 @@ type loopMeta struct {
 	Bound  string
 	Start  string
 	Nested string // "", inner, sibling
-	Extra  string // "", continue, condvar, second-iv
+	Extra  string // "", continue, condvar, second-iv, flipvar, early-break, early-return
+	Hdr    string // how a top-tested loop declares its variable: "" (for v := ..), pre, assign, while
 }
 
 type fnMeta struct {
@@ -186,6 +187,10 @@ func genLoop(r *rand.Rand, b *strings.Builder, id *int, depth int, outerVar stri
 		extraUpd = fmt.Sprintf("d%d -= 2", L)
 	case 2:
 		m.Extra = "continue"
+	case 3:
+		m.Extra = "early-break" // a data-dependent second exit: no trip count may be claimed
+	case 4:
+		m.Extra = "early-return"
 	}
 	recCall := func() string {
 		if extraLog != "" {
@@ -198,6 +203,18 @@ func genLoop(r *rand.Rand, b *strings.Builder, id *int, depth int, outerVar stri
 		if m.Extra == "continue" {
 			bw("if %s&1 == 1 {", v)
 			bw("\tcontinue")
+			bw("}")
+		}
+		if m.Extra == "early-break" || m.Extra == "early-return" {
+			// first thing in the body, so that the exit edge leaves the first body block
+			cond := []string{fmt.Sprintf("int(%s) == m", v), "res > 12", fmt.Sprintf("int(%s)+m > 9", v)}[r.Intn(3)]
+			bw("if %s {", cond)
+			if m.Extra == "early-break" {
+				bw("\tbreak")
+			} else {
+				bw("\tleave(%d)", L)
+				bw("\treturn res")
+			}
 			bw("}")
 		}
 		bw("res += int(%s)", v)
@@ -216,7 +233,16 @@ func genLoop(r *rand.Rand, b *strings.Builder, id *int, depth int, outerVar stri
 	if m.Extra == "continue" && form == "bottom" {
 		form = "top" // `continue` would skip the update of a bottom-tested loop
 	}
+	if (m.Extra == "early-break" || m.Extra == "early-return") && (form == "bottom" || form == "while-continue") {
+		form = "top" // "times the exit test chose to stay" is only counted for a top test here
+	}
 	m.Form = form
+	if form == "top" {
+		m.Hdr = []string{"", "", "pre", "assign", "while"}[r.Intn(5)]
+		if m.Hdr == "while" && m.Extra == "continue" {
+			m.Hdr = "pre" // `continue` would skip the update written at the end of the body
+		}
+	}
 	if sharedDecl != "" {
 		w("%s", sharedDecl)
 		if m.Extra == "second-iv" {
@@ -229,10 +255,28 @@ func genLoop(r *rand.Rand, b *strings.Builder, id *int, depth int, outerVar stri
 	}
 	switch form {
 	case "top":
-		w("for %s := %s; %s %s %s; %s {", v, conv(start), v, cmp, conv(bound), post)
+		switch m.Hdr {
+		case "":
+			w("for %s := %s; %s %s %s; %s {", v, conv(start), v, cmp, conv(bound), post)
+		case "pre": // declared before the loop: no per-iteration copy of the variable
+			w("%s := %s", v, conv(start))
+			w("for ; %s %s %s; %s {", v, cmp, conv(bound), post)
+		case "assign":
+			w("var %s %s", v, typ)
+			w("for %s = %s; %s %s %s; %s {", v, conv(start), v, cmp, conv(bound), post)
+		case "while":
+			w("%s := %s", v, conv(start))
+			w("for %s %s %s {", v, cmp, conv(bound))
+		}
 		w("\t%s", recCall())
 		body(ind + "\t")
+		if m.Hdr == "while" {
+			w("\t%s", post)
+		}
 		w("}")
+		if m.Hdr != "" {
+			w("res += int(%s)", v)
+		}
 	case "breaktop": // exit test written as the condition to LEAVE
 		w("for %s := %s; ; %s {", v, conv(start), post)
 		w("\tif %s %s %s {", v, negCmp(cmp), conv(bound))
@@ -605,7 +649,7 @@ func judge(res *evid.Result, fm fnMeta, fn *ssa.Function, sites map[int]*recSite
 			continue
 		}
 		e := &env{args: vec, phi: a.startEnv}
-		shape := fmt.Sprintf("%s|%s|%s|%s|%s|%s%s", m.Form, m.Cmp, m.Step, m.Type, boundKind(m.Bound), m.Nested, m.Extra)
+		shape := fmt.Sprintf("%s%s|%s|%s|%s|%s|%s%s", m.Form, m.Hdr, m.Cmp, m.Step, m.Type, boundKind(m.Bound), m.Nested, m.Extra)
 		// (i) induction variables
 		overflowed := false
 		for j, v := range s.args {
@@ -663,6 +707,8 @@ func judge(res *evid.Result, fm fnMeta, fn *ssa.Function, sites map[int]*recSite
 		if T.Cmp(big.NewInt(int64(stays))) != 0 {
 			class := m.Form + "/" + m.Cmp
 			switch {
+			case m.Extra == "early-break" || m.Extra == "early-return":
+				class = "early-exit"
 			case (m.Cmp == "<=" || m.Cmp == ">=") && m.Start == m.Bound:
 				class = "inclusive-start-equals-bound"
 			case overflowed:
